@@ -652,6 +652,11 @@ def r9_fold(repo):
     return kernel.has_type_variables_fold(repo, "C08-R9")
 
 
+def r10_variance(repo):
+    """the variance decision table is stated in terms of these predicates"""
+    return kernel.variance_table(repo, "C08-R10")
+
+
 def rules():
     return [
         RuleSpec("C08-R1", "exactly one argument and one map entry per type parameter", 5, r1_exactly_one),
@@ -667,6 +672,7 @@ def rules():
         RuleSpec("C08-R7", "PECS tables", 2, r7_pecs),
         RuleSpec("C08-R8", "equality of types is structural (assignments are keyed by type parameters)", 6, r8_equality),
         RuleSpec("C08-R9", "has_type_variables is the structural fold (bounds are substituted only where it answers True)", 7, r9_fold),
+        RuleSpec("C08-R10", "the three variance objects answer their own predicates", 4, r10_variance),
     ]
 
 
